@@ -183,6 +183,24 @@ class Interp:
     def op_rotate(self, op) -> None:
         self.env[op["target"]].rotate(op["angle"], op["axis"], op.get("origin"))
 
+    def op_settle(self, op) -> None:
+        """takes an entity through a scratch mesh of its own: assemble, move the vertices at the given
+        positions, backport; the scratch mesh is then dropped and the entity used as it stands"""
+        scratch = self.cb.Mesh()
+        scratch.add(self.env[op["target"]])
+        scratch.assemble()
+        for mv in op["moves"]:
+            vx = min(scratch.vertices, key=lambda v_: sum((float(v_.position[k]) - mv["pos"][k]) ** 2 for k in range(3)))
+            vx.move_to(mv["to"])
+            scratch.backport()
+        scratch.clear()
+
+    def op_invert(self, op) -> None:
+        self.env[op["target"]].invert()
+
+    def op_mirror(self, op) -> None:
+        self.env[op["target"]].mirror(op["normal"], op.get("origin"))
+
     def op_scale(self, op) -> None:
         self.env[op["target"]].scale(op["ratio"], op.get("origin"))
 
@@ -270,10 +288,23 @@ class Interp:
         self._saved_vertices = {}
 
     def op_move_vertex(self, op) -> None:
-        v = self.mesh.vertices[op["index"]]
         saved = getattr(self, "_saved_vertices", None)
         if saved is None:
             saved = self._saved_vertices = {}
+        if "point" in op:
+            # addressed by the program's point id (independent of vertex numbering): the vertex whose
+            # original position is that point
+            want = self.points[op["point"]]
+            best, bd = None, None
+            for i, vx in enumerate(self.mesh.vertices):
+                pos = saved.get(i, vx.position)
+                dd = sum((float(pos[k]) - want[k]) ** 2 for k in range(3))
+                if bd is None or dd < bd:
+                    best, bd = i, dd
+            if best is None or bd > 1e-12:
+                raise KeyError(f"move_vertex: no vertex at point {op['point']}")
+            op = dict(op, index=best)
+        v = self.mesh.vertices[op["index"]]
         if op["index"] not in saved:
             saved[op["index"]] = [float(x) for x in v.position]
         if "to" in op:
